@@ -7,8 +7,6 @@ var Workers = map[string]func(args []string) int{}
 
 func RunC07(c *lib.Ctx) { c.Inconclusive("C07: check not built yet") }
 
-func RunC08(c *lib.Ctx) { c.Inconclusive("C08: check not built yet") }
-
 func RunC09(c *lib.Ctx) { c.Inconclusive("C09: check not built yet") }
 
 func RunC16(c *lib.Ctx) { c.Inconclusive("C16: check not built yet") }
